@@ -66,9 +66,11 @@ var (
 	unknownTWS   = []string{`{"type":"bogus"}`, `{"id":"1","type":"start","payload":{"query":"{ x }"}}`, `{"id":"1","type":"stop"}`, `{"type":"CONNECTION_INIT"}`, `{"type":"Subscribe","id":"2"}`, `{"type":"ka"}`}
 	unknownGWS   = []string{`{"type":"bogus"}`, `{"id":"1","type":"subscribe","payload":{"query":"{ x }"}}`, `{"type":"ping"}`, `{"type":"START","id":"1"}`, `{"type":"pong"}`, `{"id":"2","type":"next"}`}
 	// wrong JSON shape: the reference accepts "ignored" as well as "closed with 4400"
-	shapes     = []string{`[1,2]`, `"str"`, `123`, `{"id":5,"type":"%s"}`, `{"type":5}`, `null`, `{}`, `{"type":null}`, `true`, `{"id":["1"],"type":"%s","payload":{"query":"{ x }"}}`, `{"type":{"a":1}}`}
-	srvTypeTWS = []string{`{"id":"1","type":"next","payload":{"data":null}}`, `{"type":"connection_ack"}`, `{"id":"1","type":"error","payload":[]}`, `{"id":"2","type":"next"}`}
-	srvTypeGWS = []string{`{"id":"1","type":"data","payload":{"data":null}}`, `{"type":"connection_ack"}`, `{"id":"1","type":"error","payload":[]}`, `{"id":"1","type":"complete"}`, `{"type":"ka"}`, `{"type":"connection_error"}`}
+	shapes = []string{`[1,2]`, `"str"`, `123`, `{"id":5,"type":"%s"}`, `{"type":5}`, `null`, `{}`, `{"type":null}`, `true`, `{"id":["1"],"type":"%s","payload":{"query":"{ x }"}}`, `{"type":{"a":1}}`}
+	// message types only the SERVER may send, as well-formed client messages (complete is
+	// bidirectional under graphql-transport-ws; under graphql-ws the client's word is stop)
+	srvTypeTWS = []string{"next", "connection_ack", "error"}
+	srvTypeGWS = []string{"data", "connection_ack", "error", "complete", "ka", "connection_error"}
 )
 
 func pick(xs []string, v int) string {
@@ -181,14 +183,52 @@ func wire(proto string, i int, m Msg) []byte {
 		}
 		return []byte(s)
 	case "srvtype":
-		if proto == protoGWS {
-			return []byte(pick(srvTypeGWS, m.V))
+		typ, shape := srvType(proto, m.V)
+		switch shape {
+		case 1:
+			return []byte(`{"id":` + q(m.ID) + `,"type":"` + typ + `"}`)
+		case 2:
+			return []byte(`{"id":` + q(m.ID) + `,"type":"` + typ + `","payload":` + srvPayload(typ) + `}`)
 		}
-		return []byte(pick(srvTypeTWS, m.V))
+		return []byte(`{"type":"` + typ + `"}`)
 	case "empty":
 		return []byte{}
 	}
 	return []byte(`{"type":"bogus"}`)
+}
+
+// srvType: variant v of a "srvtype" message selects the server-only type and the shape
+// (0 bare, 1 with the message's id, 2 with id and a payload of the type's usual form).
+func srvType(proto string, v int) (typ string, shape int) {
+	if v < 0 {
+		v = -v
+	}
+	list := srvTypeTWS
+	if proto == protoGWS {
+		list = srvTypeGWS
+	}
+	return list[v%len(list)], (v / len(list)) % 3
+}
+
+func srvPayload(typ string) string {
+	switch typ {
+	case "next", "data":
+		return `{"data":null}`
+	case "error":
+		return `[{"message":"x"}]`
+	case "connection_error":
+		return `"x"`
+	}
+	return `{}`
+}
+
+// wireType is the "type" of a well-formed client message ("" if there is none).
+func wireType(raw []byte) string {
+	var mm struct {
+		Type string `json:"type"`
+	}
+	_ = json.Unmarshal(raw, &mm)
+	return mm.Type
 }
 
 func countVerbs(s string) int {
@@ -213,7 +253,8 @@ const (
 	semTerminate // gws only
 	semUnknown   // message type the protocol does not define
 	semNonJSON
-	semEither // wrong shape / server-only type sent by the client: ignoring it and closing with 4400 are both accepted
+	semEither  // wrong JSON shape: ignoring it and closing with 4400 are both accepted
+	semSrvType // well-formed message of a type only the server may send: an invalid message
 	semEmpty
 	semTick
 )
@@ -245,8 +286,10 @@ func classify(proto string, m Msg) sem {
 		return semUnknown
 	case "nonjson":
 		return semNonJSON
-	case "shape", "srvtype":
+	case "shape":
 		return semEither
+	case "srvtype":
+		return semSrvType
 	case "empty":
 		return semEmpty
 	case "tick":
